@@ -21,10 +21,12 @@ Cfgs == [limit : Limits]
 Inputs == [entry : Entries, pres : Pres, size : Sizes, good : BOOLEAN]
 
 \* effective limit in KiB ("1" is one byte: below every document)
+\* "maxint" (the largest int64) means "no practical limit": nothing generated here exceeds it
 EffKiB(cfg, in) == IF in.entry \in Predecoders \/ cfg.limit = "0" THEN 5120
-                   ELSE CASE cfg.limit = "1" -> 0 [] cfg.limit = "2k" -> 2 [] OTHER -> 64
+                   ELSE CASE cfg.limit = "1" -> 0 [] cfg.limit = "2k" -> 2 [] cfg.limit = "maxint" -> 1000000000 [] OTHER -> 64
 \* documents are 3..12 KiB before padding
-Feasible(cfg, in) == (in.size \in {"lim-1", "lim", "lim+1"} => EffKiB(cfg, in) >= 64)
+Feasible(cfg, in) == (in.size \in {"lim-1", "lim", "lim+1"} => (EffKiB(cfg, in) >= 64 /\ EffKiB(cfg, in) <= 5120))
+                     /\ (in.size \in {"x100", "x1000"} => EffKiB(cfg, in) <= 5120)
                      /\ (in.size = "x1000" => EffKiB(cfg, in) < 5120)
                      /\ (in.pres = "raw" => in.size \in {"natural", "lim-1", "lim", "lim+1"})
 Over(cfg, in) == CASE in.size = "natural" -> EffKiB(cfg, in) < 3
